@@ -238,7 +238,15 @@ class Run:
             self.samples.append(sample)
 
     def add(self, finding):
-        self.findings.setdefault(finding.key, finding)
+        old = self.findings.setdefault(finding.key, finding)
+        if old is not finding and isinstance(finding.detail, dict) and finding.detail.get('instances'):
+            # the same construct fails in several scenarios / paths: collect the instances (they decide whether a listed known finding covers it)
+            if not isinstance(old.detail, dict):
+                old.detail = {}
+            inst = old.detail.setdefault('instances', [])
+            for i in finding.detail['instances']:
+                if i not in inst:
+                    inst.append(i)
 
     def note(self, s):
         if s not in self.notes:
@@ -265,6 +273,15 @@ class Run:
                 kn[(k['property'], k['rule'], k['where'], norm_text(k['construct']))] = k
         new, listed = [], []
         for key, f in sorted(self.findings.items()):
+            if key in kn and kn[key].get('instances') is not None:
+                # a known finding that enumerates the failing instances (paths, scenarios) covers exactly those: any other failing instance of the same
+                # construct is a new violation
+                have = (f.detail or {}).get('instances', []) if isinstance(f.detail, dict) else []
+                extra = sorted(set(have) - set(kn[key]['instances']))
+                if extra or not have:
+                    f.message = (f'{len(extra)} failing instance(s) not covered by the recorded known finding, e.g. {extra[:3]}; ' if extra else 'instances not enumerated; ') + f.message
+                    new.append(f)
+                    continue
             (listed if key in kn else new).append(f)
         fdir = os.path.join(EVIDENCE_DIR, 'findings')
         os.makedirs(fdir, exist_ok=True)
